@@ -161,6 +161,12 @@ def run(res, ctx):
                 cases.append({"rows": extreme_history(rng), "inits": {}})
             else:
                 cases.append(gen.gen_case(rng, p_invalid=0.1, p_sfl_spec=0.05))
+        if done == 0:
+            # long inputs: several read-buffer lengths (8 KiB) of CSV text through the string reader of the
+            # library entry point (the way the web UI hands file contents over)
+            for nrows in ((200, 420, 700) if tier == "quick" else (200, 420, 700, 1500, 149, 150, 151, 300)):
+                cases.append({"rows": gen.gen_history(rng, n_rows=nrows, p_invalid=0.0, p_split=0.01), "inits": {}})
+                st["long-inputs"] += 1
         done += len(cases)
         for r in corecheck.run_cases(ctx, cases, render=True, costs=True):
             st["evaluations"] += 1
